@@ -217,15 +217,15 @@ impl ColSpec {
     }
 }
 
-/// every column type code mysql_common 0.31 knows
-pub const ALL_COLTYPES: [u8; 31] = [
-    0, 1, 2, 3, 4, 5, 6, 7, 8, 9, 10, 11, 12, 13, 14, 15, 16, 17, 18, 19, 20, 245, 246, 247, 248, 249, 250, 251, 252, 253, 254,
+/// every column type code mysql_common 0.31 defines (the `ColumnType` enum; 14 = NEWDATE has no
+/// `TryFrom<u8>` arm there but is a public variant)
+pub const ALL_COLTYPES: [u8; 33] = [
+    0, 1, 2, 3, 4, 5, 6, 7, 8, 9, 10, 11, 12, 13, 14, 15, 16, 17, 18, 19, 20, 243, 245, 246, 247, 248, 249, 250, 251, 252, 253, 254, 255,
 ];
 
 pub fn coltype_from_u8(t: u8) -> ColumnType {
+    if t == 14 {
+        return ColumnType::MYSQL_TYPE_NEWDATE;
+    }
     ColumnType::try_from(t).unwrap_or_else(|_| panic!("harness: unknown column type {}", t))
-}
-
-pub fn all_coltypes() -> Vec<u8> {
-    (0u8..=255).filter(|t| ColumnType::try_from(*t).is_ok()).collect()
 }
